@@ -721,7 +721,19 @@ fn fill(ctx: &Ctx, out: &mut Outcome, run_seed: u64, r: &mut Rng) {
                 report(out, format!("C09/available-memory-differs-from-unacked-bytes/{kind}"), "send-side bytes are accounted while unacknowledged and come back when acknowledged", format!("ch {} dir {}: available {} but budget {} - unacknowledged bytes {} = {}", ch, dir, avail, budget, used, budget - used.min(budget)), &hist);
                 break 'rounds;
             }
-            let room = budget - used;
+            // "within budget" (section 4): what was submitted and not yet obtained by the receiving application also has
+            // to fit - on a lossy link an ordered receiver holds acknowledged messages behind a missing one
+            let held = l.outstanding[dir as usize][ch as usize];
+            if held > used && budget - held.min(budget) == 0 {
+                out.count("fill_waits_for_receiver");
+                l.pump(r, false, 16);
+                steps += 1;
+                if steps > 400 {
+                    break;
+                }
+                continue;
+            }
+            let room = budget - used.max(held).min(budget);
             steps += 1;
             // a piece whose slice-rounded size equals its size (receive side accounts whole slices)
             let exact = steps > 6 || r.chance(1, 3);
@@ -743,6 +755,7 @@ fn fill(ctx: &Ctx, out: &mut Outcome, run_seed: u64, r: &mut Rng) {
             } else {
                 lens.push(len);
                 fp.u64(len as u64);
+                l.outstanding[dir as usize][ch as usize] += len;
                 if dir == UP {
                     l.client.send_message(ch, b);
                 } else {
